@@ -74,13 +74,13 @@ def reader_core(ctx, src):
             n = 'get_s%s%s' % (w, e)
             u.function(src, HH, r'inline %s %s\(bool advance = true\)' % (sty, n), scope=SR,
                        new_header='%s %s(StringReader* self, bool advance)' % (sty, M(n)),
-                       rules=[Rule('return ext%s(self->get_u%s%s(advance));' % (w, w, e),
-                                   '{ %s verif_t = %s(self, advance); if (verif_exc) return 0; return ext%s(verif_t); }' % (ty, M('get_u%s%s' % (w, e)), w), count=1)])
+                       rules=[Rule(r'return ([^;]*?)self->get_u%s%s\(advance\)([^;]*);' % (w, e),
+                                   r'{ %s verif_t = %s(self, advance); if (verif_exc) return 0; return \1verif_t\2; }' % (ty, M('get_u%s%s' % (w, e))), count=1, regex=True)])
             n = 'pget_s%s%s' % (w, e)
             u.function(src, HH, r'inline %s %s\(size_t offset\) const' % (sty, n), scope=SR,
                        new_header='%s %s(const StringReader* self, size_t offset)' % (sty, M(n)),
-                       rules=[Rule('return ext%s(self->pget_u%s%s(offset));' % (w, w, e),
-                                   '{ %s verif_t = %s(self, offset); if (verif_exc) return 0; return ext%s(verif_t); }' % (ty, M('pget_u%s%s' % (w, e)), w), count=1)])
+                       rules=[Rule(r'return ([^;]*?)self->pget_u%s%s\(offset\)([^;]*);' % (w, e),
+                                   r'{ %s verif_t = %s(self, offset); if (verif_exc) return 0; return \1verif_t\2; }' % (ty, M('pget_u%s%s' % (w, e))), count=1, regex=True)])
     # --- Strings.cc ---
     def cc(name, sig, hdr, **kw):
         u.function(src, CC, sig, new_header=hdr, **kw)
@@ -169,7 +169,7 @@ def tmpl_units(ctx, src):
     u.function(src, HH, r'void pput\(size_t offset, const T& v\)', scope=SW,
                new_header='static inline void SWPPUT(T)(StringWriter* self, size_t offset, const T* v)', ret_zero='',
                rules=[Rule('self->data.size()', 'vstr_size(&self->data)', count=1),
-                      Rule("self->data.resize(offset + sizeof(T), '\\0');", "vstr_resize_x(&self->data, offset + sizeof(T), '\\0'); if (verif_exc) return;", count=1),
+                      Rule(r"self->data\.resize\(([^;]*?), ('[^']*')\);", r"vstr_resize_x(&self->data, \1, \2); if (verif_exc) return;", count=1, regex=True),
                       Rule('memcpy(self->data.data() + offset, &v, sizeof(v));', 'verif_memcpy(vstr_data(&self->data) + offset, v, sizeof(*v));', count=1)])
     # BufferWriter
     u.function(src, HH, r'void put\(const T& v\)', scope=BW,
@@ -245,11 +245,11 @@ def reader_str(ctx, src):
     u.function(src, CC, r'string StringReader::read\(size_t size, bool advance\)',
                new_header='void %s(StringReader* self, vstr* ret, size_t size, bool advance)' % M('read_str'),
                rules=[Rule('string ret = self->pread(self->offset, size);', '%s(self, ret, self->offset, size);' % M('pread_str'), count=1),
-                      Rule('ret.size()', 'vstr_size(ret)', count=2), Rule('return ret;', 'return;', count=1)])
+                      Rule('ret.size()', 'vstr_size(ret)', count='+'), Rule('return ret;', 'return;', count=1)])
     u.function(src, CC, r'string StringReader::readx\(size_t size, bool advance\)',
                new_header='void %s(StringReader* self, vstr* ret, size_t size, bool advance)' % M('readx_str'),
                rules=[Rule('string ret = self->preadx(self->offset, size);', '%s(self, ret, self->offset, size); if (verif_exc) return;' % M('preadx_str'), count=1),
-                      Rule('ret.size()', 'vstr_size(ret)', count=1), Rule('return ret;', 'return;', count=1)])
+                      Rule('ret.size()', 'vstr_size(ret)', count='+'), Rule('return ret;', 'return;', count=1)])
     P8 = M('pget_s8')
     u.function(src, CC, r'string StringReader::pget_cstr\(size_t offset\) const',
                new_header='void %s(const StringReader* self, vstr* ret, size_t offset)' % M('pget_cstr'),
@@ -260,7 +260,7 @@ def reader_str(ctx, src):
     u.function(src, CC, r'string StringReader::get_cstr\(bool advance\)',
                new_header='void %s(StringReader* self, vstr* ret, bool advance)' % M('get_cstr'),
                rules=[Rule('string ret = self->pget_cstr(self->offset);', '%s(self, ret, self->offset); if (verif_exc) return;' % M('pget_cstr'), count=1),
-                      Rule('ret.size()', 'vstr_size(ret)', count=1), Rule('return ret;', 'return;', count=1)])
+                      Rule('ret.size()', 'vstr_size(ret)', count='+'), Rule('return ret;', 'return;', count=1)])
     u.function(src, CC, r'string StringReader::get_line\(bool advance\)',
                new_header='void %s(StringReader* self, vstr* ret, bool advance)' % M('get_line'), ret_zero='',
                rules=[Rule('self->eof()', M('eof') + '(self)', count=1), Rule('string ret;', '', count=1),
@@ -297,9 +297,9 @@ def oneliners(ctx, src):
     out = {}
 
     def add(W, code, key, cname, ret):
-        d = out.setdefault(W, {'code': [], 'fns': {}})
+        d = out.setdefault(W, {'code': [], 'fns': []})
         d['code'].append(code)
-        d['fns'][key] = (cname, ret)
+        d['fns'].append((key, cname, ret))
     _, rbody, _, _ = find_def(text, SR, 'class')
     rx = re.compile(r'inline (\w+) ((get|pget)_\w+)\((bool advance = true|size_t offset)\) (?:const )?\{ return this->(get|pget)<(\w+)>\((advance|offset)\); \}')
     n = 0
@@ -399,9 +399,9 @@ def plan(ctx, pid):
         return g
     for fn in ['pread_str', 'preadx_str', 'read_str', 'readx_str']:
         S('StringReader.' + fn, 'h_' + fn, 'StringReader_' + fn, 'StringReader::' + fn.replace('_str', '') + ' (std::string form)', replace=['vstr_assign'])
-    S('StringReader.pget_cstr', 'h_pget_cstr', 'StringReader_pget_cstr', 'StringReader::pget_cstr', loops=True, kind='loop-contract', timeout=300)
+    S('StringReader.pget_cstr', 'h_pget_cstr', 'StringReader_pget_cstr', 'StringReader::pget_cstr', loops=True, kind='loop-contract', timeout=300, fallback_unwind=50)
     S('StringReader.get_cstr', 'h_get_cstr', 'StringReader_get_cstr', 'StringReader::get_cstr', replace=['StringReader_pget_cstr'])
-    S('StringReader.get_line', 'h_get_line', 'StringReader_get_line', 'StringReader::get_line', loops=True, kind='loop-contract', timeout=300)
+    S('StringReader.get_line', 'h_get_line', 'StringReader_get_line', 'StringReader::get_line', loops=True, kind='loop-contract', timeout=300, fallback_unwind=50)
     S('BufferWriter.pwrite', 'h_bw_pwrite', 'BufferWriter_pwrite', 'BufferWriter::pwrite', replace=['verif_memcpy'])
     S('BufferWriter.write', 'h_bw_write', 'BufferWriter_write', 'BufferWriter::write', replace=['verif_memcpy'])
     S('StringWriter.size', 'h_sw_size', 'StringWriter_size', 'StringWriter::size')
@@ -411,9 +411,10 @@ def plan(ctx, pid):
     if pid == 'C01':
         S('BitWriter.size', 'h_bitw_size', 'BitWriter_size', 'BitWriter::size')
         S('BitWriter.write', 'h_bitw_write', 'BitWriter_write', 'BitWriter::write')
-        S('BitReader.pread', 'h_bitr_pread', 'BitReader_pread', 'BitReader::pread', loops=True, kind='loop-contract')
+        S('BitReader.pread', 'h_bitr_pread', 'BitReader_pread', 'BitReader::pread', loops=True, kind='loop-contract', fallback_unwind=66)
         S('BitReader.read', 'h_bitr_read', 'BitReader_read', 'BitReader::read', replace=['BitReader_pread'])
-    # ---- typed one-liners: one compilation per type -----------------------------------------------------------------
+    # ---- typed one-liners: one group per accessor; the specification (width, signedness, byte order) comes from the
+    # accessor's NAME (u16b = unsigned 16-bit big-endian), the instantiated type T from the source text ------------------
     from props import C03 as c03
     us, _ = c03.spec_unit(ctx, src)
     us.write()
@@ -421,53 +422,61 @@ def plan(ctx, pid):
     amap = {a[0]: a for a in aliases}
     HT = 'harness/RW/typed.c'
     import os
+    NAT = {'uint8_t': 8, 'int8_t': 8, 'uint16_t': 16, 'int16_t': 16, 'uint32_t': 32, 'int32_t': 32, 'uint64_t': 64, 'int64_t': 64, 'float': 32, 'double': 64}
+    KIND = {'rd_get': 1, 'rd_pget': 2, 'sw_put': 3, 'sw_pput': 4, 'bw_put': 5, 'bw_pput': 6}
+    byname = {}
     for Wt in sorted(ones):
         d = ones[Wt]
-        fns = d['fns']
-        if Wt in ('uint8_t', 'int8_t'):
-            base = ['T=' + Wt, 'NATIVE8=1', 'ExposedT=' + Wt]
-            isf = False
-        elif Wt in amap and amap[Wt][1] in ('big_endian', 'little_endian'):
+        if Wt in amap:
             name, cls, ex, st = amap[Wt]
             st = st or ex
-            isf = ex in ('float', 'double')
-            w = {'uint16_t': 16, 'int16_t': 16, 'uint32_t': 32, 'int32_t': 32, 'float': 32, 'uint64_t': 64, 'int64_t': 64, 'double': 64}[ex]
-            base = ['T=' + Wt, 'NATIVE8=0', 'CE=' + name, 'CLS=' + cls, 'ExposedT=' + ex, 'StoredT=' + st, 'W=%d' % w,
-                    'NAMED=%d' % {'big_endian': 1, 'little_endian': 2}[cls], 'ISFLOAT=%d' % isf]
-            if not isf:
+            isfT = ex in ('float', 'double')
+            tdef = ['T=' + Wt, 'NATIVE=0', 'CE=' + name, 'CLS=' + cls, 'ExposedT=' + ex, 'StoredT=' + st, 'W=%d' % NAT[ex],
+                    'NAMED=%d' % {'big_endian': 1, 'little_endian': 2, 'reverse_endian': 3}[cls], 'ISFLOAT=%d' % isfT]
+            if not isfT:
                 pl = c03.PROMOTE[ex]
                 p1 = c03.common(ex, 'int')
                 ti = c03.TINFO
-                base += ['PL=' + pl, 'PL_SIGNED=%d' % ti[pl][1], 'PL_BITS=%d' % ti[pl][4], 'PL_MAX=' + ti[pl][3],
+                tdef += ['PL=' + pl, 'PL_SIGNED=%d' % ti[pl][1], 'PL_BITS=%d' % ti[pl][4], 'PL_MAX=' + ti[pl][3],
                          'P1=' + p1, 'P1_SIGNED=%d' % ti[p1][1], 'P1_MIN=' + ti[p1][2], 'P1_MAX=' + ti[p1][3]]
+        elif Wt in NAT:
+            tdef = ['T=' + Wt, 'NATIVE=1', 'ExposedT=' + Wt]
+            isfT = Wt in ('float', 'double')
         else:
-            continue     # native multi-byte (host order) and reverse-endian forms: outside the b-/l-suffixed set of the property
-        base += ['ONE_INC="%s"' % os.path.basename(d['file'])]
-        for k, macro in (('rd_get', 'FN_RD_GET'), ('rd_pget', 'FN_RD_PGET'), ('sw_put', 'FN_SW_PUT'), ('sw_pput', 'FN_SW_PPUT'),
-                         ('bw_put', 'FN_BW_PUT'), ('bw_pput', 'FN_BW_PPUT')):
-            if k in fns:
-                base.append('%s=%s' % (macro, fns[k][0]))
-
-        def TG(key, entry, replace=(), **kw):
-            cname = fns[key][0]
+            raise ExtractionBreak('one-liner instantiates an unknown type %s' % Wt)
+        tdef += ['ONE_INC="%s"' % os.path.basename(d['file'])]
+        for key, cname, rett in d['fns']:
             cls_, meth = cname.split('_', 1)
-            g = Group(name='%s.%s' % (cls_, meth), harness=HT, entry=entry, function='%s::%s' % (cls_, meth), enforce=cname,
-                      replace=list(replace), defines=list(D) + base,
-                      replay=Replay(driver='RW/typed.cc', mode=key, extra=[meth], sources=ALL_LIB, small_define='VERIF_SMALL'), **kw)
+            mo = re.match(r'^p?(?:get|put)_([usf])(8|16|32|64)([bl]?)$', meth)
+            if not mo or (mo.group(2) != '8' and not mo.group(3)):
+                continue     # native-order and reverse-endian forms: outside the b-/l-suffixed set the property names
+            sg, wd, en = mo.groups()
+            spec_t = {'u': 'uint%s_t', 's': 'int%s_t'}.get(sg, '%s') % wd if sg != 'f' else {'32': 'float', '64': 'double'}[wd]
+            sdef = ['SPEC_T=' + spec_t, 'SPEC_W=' + wd, 'SPEC_BIG=%d' % (en != 'l'), 'SPEC_FLOAT=%d' % (sg == 'f'), 'FKIND=%d' % KIND[key], 'FN=' + cname]
+            isf = sg == 'f' or isfT
+            g = Group(name='%s.%s' % (cls_, meth), harness=HT, entry='h_fn', function='%s::%s' % (cls_, meth), enforce=cname,
+                      replace={'sw_put': ['vstr_append'], 'sw_pput': ['vstr_resize_x', 'verif_memcpy'], 'bw_put': ['verif_memcpy'],
+                               'bw_pput': ['verif_memcpy']}.get(key, []),
+                      defines=list(D) + tdef + sdef,
+                      replay=Replay(driver='RW/typed.cc', mode=key, extra=[meth], sources=ALL_LIB, small_define='VERIF_SMALL'))
             if isf:
                 g.engines = ['minisat', 'cadical']      # bit-exact float moves: SAT only (see C03)
                 g.stage1 = 30
             groups.append(g)
-        if 'rd_get' in fns:
-            TG('rd_get', 'h_rd_get')
-            TG('rd_pget', 'h_rd_pget')
-        TG('sw_put', 'h_sw_put', replace=['vstr_append'])
-        TG('sw_pput', 'h_sw_pput', replace=['vstr_resize_x', 'verif_memcpy'])
-        TG('bw_put', 'h_bw_put', replace=['verif_memcpy'])
-        TG('bw_pput', 'h_bw_pput', replace=['verif_memcpy'])
-        if pid == 'C01' and 'rd_get' in fns:
-            g = Group(name='roundtrip.put_get[%s]' % Wt, harness=HT, entry='l_roundtrip_sw', function='%s / %s' % (fns['sw_put'][0], fns['rd_get'][0]),
-                      replace=[fns['sw_put'][0], fns['rd_get'][0]], defines=['PROP_C01', 'PROP_C02'] + base, kind='lemma', min_post=3)
+            byname[cname] = (tdef, sdef, isf)
+    if pid == 'C01':
+        # put_X ; get_X round trips (lemma over the two contracts), for every suffix that has both
+        for cname in sorted(byname):
+            if not cname.startswith('StringWriter_put_'):
+                continue
+            sfx = cname[len('StringWriter_put_'):]
+            rd = 'StringReader_get_' + sfx
+            if rd not in byname or byname[rd][0] != byname[cname][0]:
+                continue
+            tdef, sdef, isf = byname[cname]
+            g = Group(name='roundtrip.put_get[%s]' % sfx, harness=HT, entry='l_roundtrip_sw', function='%s / %s' % (cname, rd),
+                      replace=[cname, rd], defines=['PROP_C01', 'PROP_C02'] + tdef + [x for x in sdef if not x.startswith('FKIND') and not x.startswith('FN=')] +
+                      ['FKIND=7', 'FN=' + cname, 'FN2=' + rd], kind='lemma', min_post=3)
             if isf:
                 g.engines = ['minisat', 'cadical']
                 g.stage1 = 30
